@@ -241,7 +241,9 @@ type c09Spec struct {
 	Sink     string `json:"sink"`
 }
 
-func (s c09Spec) key() string { return fmt.Sprintf("%s/%s/%d/%s", s.Model, s.Renderer, s.Cells, s.Sink) }
+func (s c09Spec) key() string {
+	return fmt.Sprintf("%s/%s/%d/%s", s.Model, s.Renderer, s.Cells, s.Sink)
+}
 
 type c09Result struct {
 	Spec        c09Spec `json:"spec"`
